@@ -290,7 +290,11 @@ func (j *powJudge) judgePair(x, y ref.Bits, only string, onlyMode int) {
 		if g.Class == ref.Inf {
 			// acceptable only if the tolerance interval reaches beyond the largest finite Decimal
 			top := new(big.Float).SetPrec(ref.TransPrec).Add(t, tol)
-			if top.Cmp(maxF) <= 0 || g.Neg != resNeg {
+			if g.Neg != resNeg {
+				bad("sign", fmt.Sprintf("an infinity (or finite result) with sign negative=%v: (-1)^y for a negative base", resNeg))
+				return
+			}
+			if top.Cmp(maxF) <= 0 {
 				bad("range", "a finite result near "+t.Text('g', 40))
 				return
 			}
@@ -470,6 +474,47 @@ func thresholdPair(r *gen.RNG) (ref.Bits, ref.Bits) {
 	return x, ref.Encode(w.Neg, w.Coef, w.Exp)
 }
 
+// thresholdPairInt is thresholdPair with an integer exponent (either parity)
+// and a base of either sign: the sign rule (-1)^y and the Inf/zero decisions
+// meet at the range ends.
+func thresholdPairInt(r *gen.RNG) (ref.Bits, ref.Bits) {
+	neg := r.Chance(2, 3)
+	var x ref.Bits
+	if r.Bool() {
+		x = ref.Encode(neg, big.NewInt(int64(r.Pick(2, 2, 3, 5, 7, 11, 20, 25, 99))), r.Pick(0, 0, -1, -2, 1))
+	} else {
+		x = magnitudeArg(r, neg, r.Range(-3, 3))
+	}
+	xn := ref.Decode(x)
+	if xn.IsZero() {
+		return x, ref.Encode(false, big.NewInt(2), 0)
+	}
+	xa := xn
+	xa.Neg = false
+	l10 := new(big.Float).SetPrec(ref.TransPrec).Quo(ref.Log(ref.FloatOf(xa)), ref.Ln10())
+	f, _ := l10.Float64()
+	if f == 0 || f != f {
+		return x, ref.Encode(false, big.NewInt(2), 0)
+	}
+	target := float64(r.Pick(6145, 6145, 6144, 6146, 6150, 6200, 6227, 6230, -6176, -6177, -6175, -6180, -6210, -6240, 6111, -6143)) + float64(r.Range(-100, 100))/100
+	yf, _ := new(big.Float).SetPrec(ref.TransPrec).Quo(big.NewFloat(target), l10).Float64()
+	if yf != yf || yf > 1e18 || yf < -1e18 {
+		return x, ref.Encode(false, big.NewInt(2), 0)
+	}
+	n := int64(yf)
+	if yf < 0 {
+		n--
+	}
+	n += int64(r.Pick(0, 1, 2, -1))
+	yb := ref.Encode(n < 0, new(big.Int).Abs(big.NewInt(n)), 0)
+	if r.Chance(1, 3) {
+		if alt, ok := r.CohortMember(ref.Decode(yb)); ok {
+			yb = alt
+		}
+	}
+	return x, yb
+}
+
 func runC18(c *Ctx) {
 	for def := ref.Mode(0); def < ref.NumModes; def++ {
 		c.Parallel("pairs", def, func(sh *mon.Shard, r *gen.RNG) {
@@ -483,6 +528,10 @@ func runC18(c *Ctx) {
 				switch i % 8 {
 				case 0:
 					x, y = thresholdPair(r)
+					if i%16 == 8 {
+						x, y = thresholdPairInt(r)
+						j.sh.Cell("gen/integer-exponent-at-range-end")
+					}
 					if i%16 == 0 {
 						// power-of-ten base with an integer exponent aimed at the range ends:
 						// a*y in 6100..6150 (largest representable power is 1e6144) or -6185..-6165
